@@ -363,3 +363,60 @@ Proof.
   - cbn. repeat constructor; cbn; intuition congruence.
   - eexists. split; [vm_compute; reflexivity|]. vm_compute. repeat split; reflexivity.
 Qed.
+
+(* C19_recover_tables_refines_partial — the table half of the aimed-at C19_recover_bytes_refines.  The loop of
+   recoverTable on bytes, started on the files the storage lists (one binding per name), simulates the abstract loop
+   of Store/Repair.v (recover_one folded over the abstract files in the same order) whenever every table file
+   DENOTES its abstract file (denotes: the scan of the bytes yields pairs whose internal keys decode — at least 8
+   bytes —, whose entries are the abstract file's readable entries in order, and the number of error callbacks is
+   the number of damaged blocks; C19_scan_skips_damaged_partial establishes the first two for a table with intact
+   footer / metaindex / index block).  Simulation: the same running maximum of the sequence number; the record's
+   added tables are, in order, the abstract model's registered tables (level 0, same number, first / last key of
+   the same good entries); one log line per file with the abstract counters (good keys, corrupted keys, corrupted
+   blocks, sequence number); the same number of dropped files.
+   PARTIAL with respect to C19_recover_bytes_refines: (a) [denotes] is a hypothesis per file — the equation
+   "blocks_of data is the block map of table_wf" that would discharge it from the bytes alone is not proved (shown
+   by computation on the example below); a key shorter than 8 bytes cannot be expressed in the abstract model at
+   all; (b) the abstract files are taken in the storage's listing order, the equation with sort_fds is not proved;
+   (c) the journal half (open_rw's replay on journal bytes = Store/Repair.v replay) is not proved; (d) that a
+   REBUILT file again denotes the good entries needs C19_rebuilt_table_ok's hypotheses and is not composed here. *)
+From GL Require Import Store.RepairRefineProofs.
+Theorem C19_recover_tables_refines_partial :
+  forall rp kp tp tcrc compress decompress fname ufc verify wo c strict fs0 nums (fl : list Repair.tfile) st st' r,
+  NoDup nums ->
+  recover_loop rp kp tp tcrc compress decompress fname ufc verify wo c strict nums st = OOk st' ->
+  (forall n, In n nums -> f_lookup (c_files (rb_c st)) (SW.FTable, n) = f_lookup fs0 (SW.FTable, n)) ->
+  Forall2 (fun n f => Repair.tf_num f = n /\
+                      denotes tp tcrc decompress fname ufc verify c (img_file fs0 n) f) nums fl ->
+  sim st r ->
+  sim st' (fold_left (Repair.recover_one kp strict) fl r) /\
+  exists ss, rb_stats st' = rb_stats st ++ ss /\
+    Forall2 (fun s f => ts_num s = Repair.tf_num f /\ ts_good s = N.of_nat (length (Repair.good kp f)) /\
+                        ts_ckeys s = Repair.ckeys kp f /\ ts_cblocks s = Repair.cblocks f /\
+                        ts_seq s = Repair.tseq (Repair.good kp f)) ss fl /\
+    Repair.r_dropped (fold_left (Repair.recover_one kp strict) fl r) =
+      (Repair.r_dropped r + N.of_nat (length (filter (fun s => negb (stat_kept s)) ss)))%N.
+Proof. exact loop_refines. Qed.
+Print Assumptions C19_recover_tables_refines_partial.
+
+(* Non-vacuity: both files of c19_ex_img denote the block maps the byte model itself derives from them (blocks_of):
+   three readable entries in one undamaged block; one damaged block and nothing readable.  The starting states are
+   related. *)
+Example C19_nonvacuous_refines :
+  denotes tblp tbl_crc (fun _ => None) None (fun _ _ _ => true) true bytewise (img_file (si_files c19_ex_img) 5)
+    (file_of_bytes tblp tbl_crc (fun _ => None) None (fun _ _ _ => true) true bytewise 5 c19_ex_data) /\
+  denotes tblp tbl_crc (fun _ => None) None (fun _ _ _ => true) true bytewise (img_file (si_files c19_ex_img) 7)
+    (file_of_bytes tblp tbl_crc (fun _ => None) None (fun _ _ _ => true) true bytewise 7 c19_ex_bad) /\
+  map (fun b => (Repair.fb_damaged b, length (Repair.fb_entries b)))
+      (blocks_of tblp tbl_crc (fun _ => None) None (fun _ _ _ => true) true bytewise c19_ex_data) = [(false, 3%nat)] /\
+  map (fun b => (Repair.fb_damaged b, length (Repair.fb_entries b)))
+      (blocks_of tblp tbl_crc (fun _ => None) None (fun _ _ _ => true) true bytewise c19_ex_bad) = [(true, 0%nat)] /\
+  sim (mkRB (mkC (si_files c19_ex_img) None sess_new [] []) SR.sr_empty 0 0 []) (Repair.r_init).
+Proof.
+  split; [|split; [|split; [|split]]].
+  - eexists. split; [vm_compute; reflexivity|]. split; [repeat constructor|]. split; vm_compute; reflexivity.
+  - eexists. split; [vm_compute; reflexivity|]. split; [repeat constructor|]. split; vm_compute; reflexivity.
+  - vm_compute. reflexivity.
+  - vm_compute. reflexivity.
+  - split; [reflexivity | constructor].
+Qed.
